@@ -36,6 +36,11 @@ impl RVal {
             Resp::Arr(Array::Arr(v)) => RVal::Arr(Some(v.iter().map(RVal::from_resp).collect())),
         }
     }
+    pub fn encoded(&self) -> Vec<u8> {
+        let mut v = vec![];
+        self.encode(&mut v);
+        v
+    }
     /// reference encoder written from the RESP2 specification
     pub fn encode(&self, out: &mut Vec<u8>) {
         match self {
